@@ -75,6 +75,10 @@ inline Json::Value rulesetJson(int i, const Json::Value& killAction, int post_ac
   dg.append("dg" + std::to_string(i));
   dg.append(det);
   rs["detectors"].append(dg);
+  Json::Value pre(Json::objectValue);
+  pre["name"] = "vp_action";
+  pre["args"]["id"] = "pre" + std::to_string(i);
+  rs["actions"].append(pre);
   rs["actions"].append(killAction);
   Json::Value after(Json::objectValue);
   after["name"] = "vp_action";
@@ -140,12 +144,6 @@ inline Json::Value genTickOps(WorldGen& wg, World& view, const KillOpts& o, std:
         Op op;
         op.op = "mk";
         op.cg = wg.genCg(p, true);
-        for (auto& kv : wg.w.procs) {
-          // outcomes of freshly generated pids
-          Op po;
-          (void)po;
-          (void)kv;
-        }
         ops.append(op.toJson());
         view.cgs.push_back(op.cg);
         removed.erase(p);
@@ -226,6 +224,15 @@ inline Json::Value genKillScenario(const KillOpts& o) {
   return sc;
 }
 
+// the kill action of ruleset json (chain: pre<i>, kill plugin, after<i>)
+inline const Json::Value& killActionOf(const Json::Value& ruleset) {
+  for (auto& a : ruleset["actions"]) {
+    std::string n = a["name"].asString();
+    if (n.compare(0, 8, "kill_by_") == 0 || n == "systemd_restart") return a;
+  }
+  return ruleset["actions"][0];
+}
+
 // ---------------------------------------------------------------- trace ----
 struct Attempt {
   std::string victim; // relative path ("" root)
@@ -245,6 +252,7 @@ struct Invocation {
   std::vector<const vp::Ev*> pre; // boundary events before the first attempt
   std::vector<Attempt> attempts;
   bool after_ran{false}; // the action after the kill plugin ran this tick
+  bool pre_ran{false}; // the action before it ran (a fresh chain start)
   std::vector<const vp::Ev*> all;
   std::vector<std::string> kmsg; // kmsg lines written by the plugin
 };
@@ -278,6 +286,7 @@ inline std::vector<Invocation> segment(const vp::RunResult& R) {
         cur->after_ran = true;
         closed = true;
       }
+      if (e.s2 == "pre" + std::to_string(cur->rs)) cur->pre_ran = true;
       continue;
     }
     if (e.k == "plugin") continue;
